@@ -130,9 +130,47 @@ NEEDS.update({
  "r5-C18-v1": "Query skips parsing unless the raw query contains the name: a key that is percent-encoded or uses '+' on the wire",
  "r5-C18-v2": "QueryStrings aliases a per-request cache: the caller changes the returned slice in place and reads the key again",
 })
-for i, (c, what) in enumerate([("16996b9", "C02"), ("b1ad9ca", "C02"), ("dc445d8", "C08"), ("50e6683", "C12"), ("8943820", "C09"), ("e71688c", "C10"), ("c547909", "C08"), ("4ac932e", "C09"), ("356c62b", "C03"), ("f4314d8", "C14"), ("9fed95b", "C11"), ("788edcd", "C10"), ("be19d8a", "C17")], 1):
+NEEDS.update({
+ "r6-C01-v1": "tree matched against URL.RawPath when it is set: a request whose wire spelling is over-escaped (%40, %31, %2F) and a route that is not fully static",
+ "r6-C01-v2": "capture limit counted with strings.FieldsFunc: match-all leaf with capture: N and a request exceeding N only when empty segments are counted",
+ "r6-C02-v1": "captures decoded with QueryUnescape: a captured value containing a literal '+'",
+ "r6-C02-v2": "reserved parameter route set to URL.Path on the shortcut: fully static route with an optional last segment requested in its long form",
+ "r6-C03-v1": "cancel check left inside the handlers loop: context cancelled during the last handler before the action, action then starts",
+ "r6-C03-v2": "Next() returns at once when the response is written: a handler writes and then calls Next() with handlers behind it",
+ "r6-C04-v1": "parent scope consulted before the scope's own implementors: interface parameter, implementor in the nearest scope, outer scope able to resolve it too",
+ "r6-C04-v2": "Map drops typed nil values: Map((*T)(nil)) (a legal value) registers nothing",
+ "r6-C05-v1": "shortcut hands every request the same Params map: handlers of concurrent requests to one static route write into Params() (data race, leaked keys)",
+ "r6-C05-v2": "pooled Params maps returned uncleared on the not-found path: a 404 after a partial match through a bind, then a request that reads a parameter it does not bind",
+ "r6-C06-v1": "parameter name used as fmt format string in Segment.String: a parameter list whose name contains '%'",
+ "r6-C06-v2": "grammar tag ( @@ ( ',' @@ )? )+ : a parameter list with three or more parameters",
+ "r6-C07-v1": "capture groups counted textually (Count('(') - Count('(?')): an earlier bind whose expression has an escaped or bracketed '(' followed by another bind, matching request - index out of range",
+ "r6-C07-v2": "optional-static route also stored under its short path, Headers() evicts only the long key: short-form request failing the constraint",
+ "r6-C08-v1": "an expression is compiled alone only when it contains '(': two broken expressions in one segment that balance each other ([0-9 and a])",
+ "r6-C08-v2": "whitespace elided by the lexer: route text with blanks outside the places the grammar allows",
+ "r6-C09-v1": "header value truncated to 4096 bytes before matching: a longer value whose verdict depends on its tail",
+ "r6-C09-v2": "Headers() stops after the first leaf of a non-static route: multi-method dynamic route, request with another method failing the constraint",
+ "r6-C10-v1": "presence-only criteria (empty expression) do not evict the shortcut entry: Headers(name, '') on a static route and a request without the header",
+ "r6-C10-v2": "shortcut lookup upper-cases the request method: request method 'get' for a fully static GET route",
+ "r6-C11-v1": "empty route path rewritten to '/' before the group prefix is applied: Get(\"\") inside a group with a non-empty path",
+ "r6-C11-v2": "Combo registers through Route(method): AutoHead on, Combo().Get(), HEAD request (same root cause as r5-C11-v2, found independently)",
+ "r6-C12-v1": "substitution by regexp \\{\\w+\\}: a bind name with a non-word character (user-id, file.name, **)",
+ "r6-C12-v2": "every parameter named capture is skipped in the URL template: a regex bind literally named capture",
+ "r6-C13-v1": "Size() not advanced when the underlying Write returns an error: partial write with error (same root cause as r5-C13-v2, found independently)",
+ "r6-C13-v2": "1xx status codes bypass the once-guard and the bookkeeping: WriteHeader(103) then anything [patch rebased onto fix 90f334b]",
+ "r6-C14-v1": "fast path returns nothing for an empty string: func() (int, string) returning (204, \"\")",
+ "r6-C14-v2": "ReturnHandler called only when a returned value is non-zero: custom ReturnHandler and a handler returning only zero values",
+ "r6-C15-v1": "source-line cache mutex not released when a source file cannot be read: a panicking stack with a frame whose file does not exist (//line, -trimpath) - Recovery never returns",
+ "r6-C15-v2": "a failed Hijack marks the response written: Hijack() returns an error, then the handler panics with nothing sent - implicit 200 [patch rebased onto fix 90f334b]",
+ "r6-C16-v1": "redirect target rebuilt from the uncleaned path: request path starting with '//' naming a directory, no Prefix - Location is a network-path reference",
+ "r6-C16-v2": "ETag / If-None-Match handled before the directory and index checks: SetETag and a directory without index (ETag leaks into the next handler's response, replayed it gives 304)",
+ "r6-C17-v1": "Content-Type only set when absent: something put another Content-Type on the response before the render call",
+ "r6-C17-v2": "PlainText through Fprintf: text containing '%'",
+ "r6-C18-v1": "query dropped as a whole when ParseQuery reports an error: a well-formed pair next to a malformed one (%zz, ';')",
+ "r6-C18-v2": "shortcut hands every request the same Params map (as r6-C05-v1): an earlier request wrote a key that a later request reads as a bind parameter",
+})
+for i, (c, what) in enumerate([("16996b9", "C02"), ("b1ad9ca", "C02"), ("dc445d8", "C08"), ("50e6683", "C12"), ("8943820", "C09"), ("e71688c", "C10"), ("c547909", "C08"), ("4ac932e", "C09"), ("356c62b", "C03"), ("f4314d8", "C14"), ("9fed95b", "C11"), ("788edcd", "C10"), ("be19d8a", "C17"), ("90f334b", "C15")], 1):
     NEEDS["rev-F%02d" % i] = "reverse of fix commit %s: the defect as it was in the pinned tree (see known_findings.txt and DESIGN.md section 6)" % c
-REVPROP = {"rev-F01": "C02", "rev-F02": "C02", "rev-F03": "C08", "rev-F04": "C12", "rev-F05": "C09", "rev-F06": "C10", "rev-F07": "C08", "rev-F08": "C09", "rev-F09": "C03", "rev-F10": "C14", "rev-F11": "C11", "rev-F12": "C10", "rev-F13": "C17"}
+REVPROP = {"rev-F01": "C02", "rev-F02": "C02", "rev-F03": "C08", "rev-F04": "C12", "rev-F05": "C09", "rev-F06": "C10", "rev-F07": "C08", "rev-F08": "C09", "rev-F09": "C03", "rev-F10": "C14", "rev-F11": "C11", "rev-F12": "C10", "rev-F13": "C17", "rev-F14": "C15"}
 
 for d in sorted(glob.glob(os.path.join(VERIF, "seeded", "*"))):
     name = os.path.basename(d)
